@@ -58,3 +58,13 @@ Theorem C12_code_get_variable_bounds : forall (O : oracle) (num : Type) (optimiz
   bind (optimize c v true) (fun maximum => bind (optimize c v false) (fun minimum => ret (minimum, maximum))).
 Proof. exact wrap_get_variable_bounds_eq. Qed.
 Print Assumptions C12_code_get_variable_bounds.
+
+(* ==== T1 tie (LP / numpy) ==== *)
+Require Import PyDict PyLoop PyTermList PyNumpy TermGen TermListGen PolyGen PolyGenBase PolyGenPolytope PolyGenEmpty PolyGenOptimize.
+(* T1 tie: PolyhedralTermList.optimize as translated ON THIS RUN (gen/PolyGen.v: the LP call and the mapping of its status to value / None / ValueError, emptiness decided separately on status 2) IS poly_optimize of model/Poly.v. proofs/PolyGenOptimize.v *)
+Theorem C12_code_optimize :
+  forall (O : oracle) (self : list pterm) (objective : pvars) (maximize : bool),
+       @NoDup var (keys objective) ->
+       @PolyhedralTermList_optimize (poly_lp O) self objective maximize = poly_optimize O self objective maximize.
+Proof. exact @optimize_eq. Qed.
+Print Assumptions C12_code_optimize.
